@@ -19,6 +19,7 @@ RULE = (
     "dilation) with output extents >= 1; every concrete return of convolve / convolve_contract is compared with the "
     "direct-sum reference on integer lattice operands (exact). Non-trivial: output not identically zero; distinct by option set."
 )
+RULE += " Also: realistic sizes, an int32-typed filter on a quarter-integer image, NumPy operands, object-level convolve_with, convolve_ravel."
 ASSUMPTIONS = [
     "reference convolution vmon/ref/conv.py (self-tested against explicit index loops and a 1-pixel case)",
     "string TORUS padding together with lhs dilation is judged against wrap -> interleave -> pad (reported as its own cell)",
